@@ -693,6 +693,11 @@ def gen_C01(rng, n):
 
 def gen_C11(rng, n):
     out = []
+    # fixed exponent pairs: zero, one, r-1, exponents with all-zero low limbs, and the exponents whose
+    # *Montgomery* form is 1 or 2 (a fast path keyed on the raw limbs fires exactly there)
+    rinv = pow(2**256, -1, r)
+    for a, b in [(rinv, 1), (0, 2 * rinv % r), (2**64, 2**128), (r - 1, (rinv + 1) % r)]:
+        out.append(('gtk:fixed', f'gtk.ops {h32(1)} {h32(1)} {h32(a)} {h32(b)}'))
     for _ in range(n):
         ls, a = scalar_value(rng)
         lt, b = scalar_value(rng)
